@@ -41,6 +41,62 @@ pub fn oracle_node(prop: &str, cfg: &Cfg, ops: &[Op], last: &Out, out: &mut JobO
     }
 }
 
+/// 2^-600: exact for every normal f64 above 2^-422; brings prices near f64::MAX into a
+/// range where the double-double reference (and squared deviations) cannot overflow.
+pub const DOWN: f64 = 2.409919865102884e-181;
+
+fn scale_op(op: &Op, c: f64) -> Op {
+    match op {
+        Op::S(x) => Op::S(x * c),
+        Op::B(b) => Op::B(Bar { o: b.o * c, h: b.h * c, l: b.l * c, c: b.c * c, v: b.v }),
+        Op::Reset => Op::Reset,
+    }
+}
+
+/// Oracle for prices near f64::MAX (price-valued outputs only: every formula of C01/C02 is
+/// homogeneous of degree 1 in the prices).  The reference is evaluated on the history
+/// scaled by 2^-600 (exact), the observed output is scaled by the same factor (exact),
+/// and both are compared at the statement's tolerance.  A non-finite observed component
+/// against a finite reference is classed "intermediate-overflow" (an intermediate of the
+/// implementation exceeded f64::MAX although inputs and exact result are finite).
+pub fn oracle_node_scaled(prop: &str, cfg: &Cfg, ops: &[Op], last: &Out, out: &mut JobOut) {
+    let hist = since_reset(ops);
+    if hist.is_empty() {
+        return;
+    }
+    let scaled: Vec<Op> = hist.iter().map(|o| scale_op(o, DOWN)).collect();
+    let r = crate::refm::reference(cfg, &scaled);
+    if r.v[..r.n].iter().any(|x| !(x.abs() * (1.0 / DOWN)).is_finite()) {
+        // the exact result itself is not representable
+        out.stats.skipped += 1;
+        out.stats.count("skip: exact result beyond f64::MAX");
+        return;
+    }
+    let mut o2 = *last;
+    for i in 0..o2.n as usize {
+        o2.v[i] *= DOWN;
+    }
+    match crate::oracle::compare_with(cfg, hist.len(), &r, &o2) {
+        Verdict::Ok(w) => {
+            out.stats.evaluations += 1;
+            let win = cfg.kind.window(cfg).unwrap_or(1);
+            if hist.len() > win {
+                out.stats.nontrivial += 1;
+            }
+            out.stats.ratio(w, 1.0, || format!("{} after [{}]", cfg.descr(), ops_text(ops)));
+        }
+        Verdict::Skip(why) => {
+            out.stats.skipped += 1;
+            out.stats.count(&format!("skip: {}", why));
+        }
+        Verdict::Fail { obs: _, exp: _, detail } => {
+            let overflow = (0..last.n as usize).any(|i| !last.v[i].is_finite());
+            let exp: Vec<f64> = r.v[..r.n].iter().map(|x| x * (1.0 / DOWN)).collect();
+            out.fail(Violation::new(prop, cfg, ops, if overflow { if hist.iter().any(|o| matches!(o, Op::B(_))) { "intermediate-overflow-bar-input" } else { "intermediate-overflow-scalar-input" } } else { "value-mismatch" }).obs(out2s(last)).exp(format!("{:?}", exp)).det(format!("(compared after exact scaling by 2^-600) {}", detail)));
+        }
+    }
+}
+
 /// Run all spaces, parallel over (space, first symbol).
 pub fn run_spaces(ctx: &Ctx, prop: &'static str, spaces: &[Space]) -> JobOut {
     let mut jobs: Vec<(usize, usize)> = vec![];
@@ -54,8 +110,13 @@ pub fn run_spaces(ctx: &Ctx, prop: &'static str, spaces: &[Space]) -> JobOut {
     let outs = par_run(ctx, &jobs, |_, (i, a)| {
         let sp = &spaces[*i];
         let mut out = JobOut::default();
+        let near_max = sp.label.starts_with("near-max");
         seq_job(ctx, prop, &sp.cfg, &sp.alphabet, *a, sp.depth, &mut out, |ops, last, out| {
-            oracle_node(prop, &sp.cfg, ops, last, out);
+            if near_max {
+                oracle_node_scaled(prop, &sp.cfg, ops, last, out);
+            } else {
+                oracle_node(prop, &sp.cfg, ops, last, out);
+            }
         });
         out.stats.add(&format!("nodes[{}]", sp.label), out.stats.states);
         out
